@@ -4,7 +4,9 @@
 mod core_ops;
 mod dval;
 mod gen;
+mod ops_acc;
 mod ops_codec;
+mod ops_frame;
 mod ops_schema;
 mod schema;
 mod prng;
@@ -37,6 +39,12 @@ fn eval_line(ctx: &mut Ctx, line: &str) -> String {
     if let Some(a) = ops_codec::eval(ctx, &op, args) {
         return a;
     }
+    if let Some(a) = ops_acc::eval(ctx, &op, args) {
+        return a;
+    }
+    if let Some(a) = ops_frame::eval(ctx, &op, args) {
+        return a;
+    }
     if let Some(a) = ops_schema::eval(ctx, &op, args) {
         return a;
     }
@@ -59,6 +67,12 @@ fn main() {
                 "C02" => ops_codec::gen_c02(&mut r, thorough, &mut out),
                 "C03" => ops_codec::gen_c03(&mut r, thorough, &mut out),
                 "C16" => ops_schema::gen_c16(&mut r, thorough, &mut out),
+                "C08" => ops_acc::gen_acc(&mut r, thorough, false, &mut out),
+                "C09" => ops_acc::gen_acc(&mut r, thorough, true, &mut out),
+                "C05" => ops_frame::gen_c05(&mut r, thorough, &mut out),
+                "C06" => ops_frame::gen_c06(&mut r, thorough, &mut out),
+                "C07" => ops_frame::gen_c07(&mut r, thorough, &mut out),
+                "C10" => ops_frame::gen_c10(&mut r, thorough, &mut out),
                 _ => {
                     eprintln!("unknown property {}", prop);
                     std::process::exit(2);
